@@ -37,8 +37,25 @@ from translate import TranslateError, generator, parse, find_func, txt, txt_list
 
 sys.path.insert(0, os.path.dirname(os.path.abspath(__file__)))
 import astutil_G2 as U  # noqa: E402
+import astutil_G5 as G5  # noqa: E402
 from astutil_G2 import (Paths, State, atoms, ceval, cmp_atom, const_of, dump, fail, is_unpack, linear,  # noqa: E402
                         lin_offset, method_call, name_call, subst, sym, sym_cmp, walk_exprs)
+
+
+def _func(tree, name, cls=None):
+    """the function, with the calls of PRIVATE helpers (underscore names; for a method also static methods of
+    its class) replaced by the helper's statements (astutil_G5.inline_helpers, two levels): code moved into a
+    helper by an "extract function" refactoring is read as if it still stood in the function.  Public functions
+    (find_marked_kernel_*, match_bytes, get_line_range, parse_line, ...) are part of what the model names and
+    are never substituted."""
+    fn = find_func(tree, name, cls)
+    if cls is None:
+        res = G5.module_resolver(tree, fn, only=lambda n, f: n.startswith("_") and not n.startswith("__"))
+    else:
+        cnode = [n for n in ast.walk(tree) if isinstance(n, ast.ClassDef) and n.name == cls][0]
+        res = G5.class_resolver([cnode], fn, only=G5.is_private_helper)
+    new, used = G5.inline_helpers(fn, res, depth=2)
+    return new if used else fn
 
 
 def _int_list_lean(vs):
@@ -106,7 +123,7 @@ def _indexed_loop(target, it, seq_ok):
 def _fms_shape(tree, menv):
     """Index arithmetic, operand indices and parameter roles of find_marked_section."""
     what = "find_marked_section"
-    fn = find_func(tree, what)
+    fn = _func(tree, what)
     params, defaults = U.func_params(fn)
     env = U.func_env(fn, menv)
     # the statements before the loop, the loop, the return
@@ -283,7 +300,7 @@ def _fms_shape(tree, menv):
 def _marker_call(tree, menv, fname, fms):
     """Values of the arguments of the find_marked_section(...) call inside `fname`, by role."""
     _, roles, params, defaults = fms
-    fn = find_func(tree, fname)
+    fn = _func(tree, fname)
     env = U.func_env(fn, menv)
     px = Paths()
     px.run(fn.body)
@@ -344,7 +361,7 @@ def _loop_facts(loop, entry):
 
 
 def _match_bytes(tree, menv):
-    fn = find_func(tree, "match_bytes")
+    fn = _func(tree, "match_bytes")
     params, _ = U.func_params(fn)
     if len(params) != 3:
         raise TranslateError("match_bytes: expected the parameters (lines, index, byte_list)")
@@ -448,7 +465,7 @@ def _const_is(node, env, value):
 # ------------------------------------------------------------------ marker_utils.py: reduce_to_section
 def _reduce(tree, menv):
     what = "reduce_to_section"
-    fn = find_func(tree, what)
+    fn = _func(tree, what)
     params, _ = U.func_params(fn)
     if len(params) != 2:
         raise TranslateError("reduce_to_section: expected the parameters (kernel, isa)")
@@ -461,7 +478,6 @@ def _reduce(tree, menv):
     rets = [e for e in px.events if e.kind == "return"]
     if not rets:
         raise TranslateError("reduce_to_section: no return")
-    isa_forms = {sym(p_isa): False, sym("%s.lower()" % p_isa): True}
     len_kernel = sym("len(%s)" % p_kernel)
     out = {}
     callee_of, combos = {}, {}
@@ -477,21 +493,81 @@ def _reduce(tree, menv):
             return call.func.id
         return None
 
+    # ---- which ISA value reaches which return: CASE SPLIT over the values the code distinguishes.
+    # Every path condition is evaluated with `isa` (or `isa.lower()`) replaced by each string the code compares it
+    # with, and by one string it does not know; a condition that does not evaluate is "unknown" and excludes
+    # nothing.  So if/elif/else, a guard clause that raises first + plain else, `in (..)`, `not (a or b)`,
+    # conditional expressions and De Morgan forms all give the same table  value -> reachable returns.
+    all_conds = [at for e in px.events for at in e.conds]
+    seen_forms = set()
+    for node, _ in all_conds:
+        for n in ast.walk(node):
+            if dump(n) == sym("%s.lower()" % p_isa):
+                seen_forms.add(True)
+        bare = sum(1 for n in ast.walk(node) if _is_name(n, p_isa))
+        low = sum(1 for n in ast.walk(node) if dump(n) == sym("%s.lower()" % p_isa))
+        if bare > low:
+            seen_forms.add(False)
+    if len(seen_forms) != 1:
+        raise TranslateError("reduce_to_section: a return is reached without an `isa == <name>` test"
+                             if not seen_forms else "reduce_to_section: isa is tested both lower-cased and as given")
+    lowered = seen_forms.pop()
+    out["lowered"] = lowered
+    form = sym("%s.lower()" % p_isa) if lowered else sym(p_isa)
+
+    class _Put(ast.NodeTransformer):
+        def __init__(self, value):
+            self.value = value
+
+        def visit(self, node):
+            if isinstance(node, ast.expr) and dump(node) == form:
+                return ast.Constant(value=self.value)
+            return self.generic_visit(node)
+
+    values = []
+    for node, _ in all_conds:
+        for n in ast.walk(node):
+            if isinstance(n, ast.Compare):
+                sides = [n.left] + list(n.comparators)
+                if any(dump(x) == form for x in sides):
+                    for x in sides:
+                        try:
+                            c = ceval(x, env)
+                        except TranslateError:
+                            continue
+                        for y in (c if isinstance(c, (list, tuple, set, frozenset)) else [c]):
+                            if isinstance(y, str) and y not in values:
+                                values.append(y)
+    OTHER = "\0some other isa"
+    if not values:
+        raise TranslateError("reduce_to_section: a return is reached without an `isa == <name>` test")
+
+    def feasible(conds, value):
+        import copy as _copy
+        for node, pol in conds:
+            if not any(dump(n) == form for n in ast.walk(node)):
+                continue
+            try:
+                t = ceval(_Put(value).visit(_copy.deepcopy(node)), env)
+            except TranslateError:
+                continue
+            if bool(t) != pol:
+                return False
+        return True
+
     for e in rets:
         v = e.value
+        reach = [x for x in values + [OTHER] if feasible(e.conds, x)]
+        if not reach:
+            continue        # dead path (contradictory ISA tests)
+        if OTHER in reach:
+            raise TranslateError("reduce_to_section: a return is reached without an `isa == <name>` test")
+        if len(reach) != 1:
+            raise TranslateError("reduce_to_section: one return path serves several ISA names: %r" % reach)
+        isa = reach[0]
         if not (isinstance(v, ast.Subscript) and isinstance(v.slice, ast.Slice) and _is_name(v.value, p_kernel)
                 and v.slice.step is None and v.slice.lower is not None):
             raise TranslateError("reduce_to_section: `return kernel[start:end]` not found (line %s)" % e.node.lineno)
-        isa = None
-        for at in e.conds:
-            for l, r in sym_cmp(at, ast.Eq):
-                if dump(l) in isa_forms:
-                    if isa is not None:
-                        raise TranslateError("reduce_to_section: two ISA tests on one path")
-                    isa = const_of(r, env, str, "reduce_to_section isa")
-                    _merge(out, "lowered", isa_forms[dump(l)], what)
-        if isa is None:
-            raise TranslateError("reduce_to_section: a return is reached without an `isa == <name>` test")
         sentinel_eq, sentinel_ne = {}, {}
         for at in e.conds:
             for op, dst in ((ast.Eq, sentinel_eq), (ast.NotEq, sentinel_ne)):
@@ -562,7 +638,7 @@ def _append_loop(loop, entry):
 # ------------------------------------------------------------------ osaca.py
 def _line_range(tree, menv):
     what = "get_line_range"
-    fn = find_func(tree, what)
+    fn = _func(tree, what)
     params, _ = U.func_params(fn)
     if len(params) != 1:
         raise TranslateError("get_line_range: expected one parameter")
@@ -629,7 +705,7 @@ def _line_range(tree, menv):
     if len(range_sep) != 1:
         raise TranslateError("get_line_range: range separator is not a single character")
     # inspect: kernel = [line for line in parsed_code if line.line_number in get_line_range(args.lines)]
-    insp = find_func(tree, "inspect")
+    insp = _func(tree, "inspect")
     sel = False
     cands = []
     for node in ast.walk(insp):
@@ -661,7 +737,7 @@ def _line_range(tree, menv):
 # ------------------------------------------------------------------ base_parser.py
 def _parse_file(tree, menv):
     what = "parse_file"
-    fn = find_func(tree, what, "BaseParser")
+    fn = _func(tree, what, "BaseParser")
     params, defaults = U.func_params(fn)
     if len(params) < 2:
         raise TranslateError("parse_file: expected (self, file_content, ...)")
